@@ -251,7 +251,7 @@ def main_check(engine, tier, verif_seed, wall_cap=None, workers=None):
     n_total = int(os.environ.get("VERIF_RUNS") or 0) or engine.n_runs(tier)
     m = min(m, n_total)
     fresh = None
-    if m > 0 and not os.environ.get("VERIF_SKIP_FRESH"):
+    if m > 0 and not os.environ.get("VERIF_SKIP_FRESH") and not getattr(engine, "owns_fresh_check", False):
         fresh = subprocess.Popen(
             [sys.executable, os.path.join(VERIF_DIR, "sim", "main.py"), prop, "--digests", str(m),
              "--tier", tier],
@@ -416,8 +416,9 @@ def main_check(engine, tier, verif_seed, wall_cap=None, workers=None):
 
     reported = []
     seen_min = set()
-    for (cls, site), lst in list(groups.items())[:12]:
-        if len(reported) >= 5:
+    max_report = int(os.environ.get("VERIF_MAX_REPORT") or 3)
+    for (cls, site), lst in list(groups.items())[:2 * max_report]:
+        if len(reported) >= max_report:
             break
         rec, v = lst[0]
         out = report_violation(engine, rec, v, len(lst), seen_min)
@@ -425,7 +426,7 @@ def main_check(engine, tier, verif_seed, wall_cap=None, workers=None):
             continue  # minimised to a (class, site) that has been reported already
         path, mcls, msite = out
         reported.append({"cls": mcls, "site": msite, "count": len(lst), "replay": path, "detail": v["detail"][:500]})
-    for pname, v in part_viol[:5]:
+    for pname, v in part_viol[:max_report]:
         path = v.get("replay")
         if not path:
             path = os.path.join(REPLAY_DIR, f"{prop}-{pname}-{hash_key(v) % 10**10}.json")
